@@ -781,7 +781,7 @@ fn row_modes(ctx: &mut Ctx, idx: usize, r: &mut Rng, fixed_w: Option<u16>) {
     };
     let rows = 2 + r.below(25);
     let input = gen_input(r, rows, false);
-    let w = fixed_w.unwrap_or(60 + r.below(180) as u16);
+    let w = fixed_w.unwrap_or(if r.chance(25) { 24 + r.below(36) as u16 } else { 60 + r.below(180) as u16 });
     let h = 20 + r.below(40) as u16;
     let density = *r.pick(&[30usize, 100, 100]);
     let seed = r.next();
@@ -824,7 +824,7 @@ fn row_modes(ctx: &mut Ctx, idx: usize, r: &mut Rng, fixed_w: Option<u16>) {
     }
     // F-level: the bytes are what the model's renderer writes for the same frames
     let frames = split_frames(&text);
-    if (w as usize) >= PLACEHOLDER_LEN {
+    {
         match model_render(ctx, w as usize, h as usize, &frames) {
             Some((mbytes, _)) if mbytes == tty.bytes => {}
             _ => {
@@ -832,7 +832,7 @@ fn row_modes(ctx: &mut Ctx, idx: usize, r: &mut Rng, fixed_w: Option<u16>) {
                 return;
             }
         }
-        if frames.last() != Some(&plain_text) || frames[..frames.len() - 1].iter().any(|f| f != "data will be output once the computation is complete...\n") {
+        if frames.last() != Some(&plain_text) || frames[..frames.len() - 1].iter().any(|f| *f != format!("{}\n", PLACEHOLDER.chars().take(w as usize).collect::<String>())) {
             ctx.case(family, &key, "viol", serde_json::json!({"class": "C16/row-modes-frames", "what": "frames are not placeholder lines followed by the rows a non-terminal run prints", "frames": frames, "case": info}));
             return;
         }
@@ -841,7 +841,7 @@ fn row_modes(ctx: &mut Ctx, idx: usize, r: &mut Rng, fixed_w: Option<u16>) {
     let rows_on_screen = mine.map(|x| x.2).unwrap_or_default();
     if rows_on_screen != want {
         let first_bad = (0..rows_on_screen.len().min(want.len())).find(|i| rows_on_screen[*i] != want[*i]).unwrap_or(0);
-        let class = if (w as usize) < PLACEHOLDER_LEN { "C16/placeholder-wider-than-terminal" } else { "C16/placeholder-residue-in-row-modes" };
+        let class = if (w as usize) < PLACEHOLDER.len() { "C16/placeholder-wider-than-terminal" } else { "C16/placeholder-residue-in-row-modes" };
         let verdict = if OPEN_CLASSES.contains(&class) { "known" } else { "viol" };
         ctx.case(
             family,
@@ -856,10 +856,10 @@ fn row_modes(ctx: &mut Ctx, idx: usize, r: &mut Rng, fixed_w: Option<u16>) {
 }
 
 /// `"data will be output once the computation is complete..."`
-const PLACEHOLDER_LEN: usize = 55;
+const PLACEHOLDER: &str = "data will be output once the computation is complete...";
 
 /// classes listed with status "open" in /verif/known_findings.json
-const OPEN_CLASSES: &[&str] = &["C16/placeholder-wider-than-terminal"];
+const OPEN_CLASSES: &[&str] = &[];
 
 #[derive(Default)]
 struct VerdictTap(Option<(String, serde_json::Value)>);
@@ -943,7 +943,7 @@ fn fixed(ctx: &mut Ctx) {
 pub fn check(ctx: &mut Ctx) {
     if ctx.shard == 0 {
         fixed(ctx);
-        // witness of the open finding: the 55-character placeholder on a 30-column terminal wraps
+        // regression (fixed db52f75): the 55-character placeholder on a 30-column terminal used to wrap
         let mut r0 = ctx.rng.fork();
         row_modes(ctx, 0, &mut r0, Some(30));
         // `* | json | count` whose input starts after the first 50 ms refresh: `No data`, then the table
